@@ -62,8 +62,11 @@ def override_mathjax(app: Sphinx):
 
     if "mathjax3_config" in app.config:
         # sphinx 4 + mathjax 3
-        app.config.mathjax3_config = app.config.mathjax3_config or {}
-        app.config.mathjax3_config.setdefault("options", {})
+        # work on copies: the user's dictionaries may be shared with other builds
+        app.config.mathjax3_config = dict(app.config.mathjax3_config or {})
+        app.config.mathjax3_config["options"] = dict(
+            app.config.mathjax3_config.get("options") or {}
+        )
         if (
             "processHtmlClass" in app.config.mathjax3_config["options"]
             and app.config.mathjax3_config["options"]["processHtmlClass"]
@@ -78,8 +81,10 @@ def override_mathjax(app: Sphinx):
         app.config.mathjax3_config["options"]["processHtmlClass"] = mjax_classes
     elif "mathjax_config" in app.config:
         # sphinx 3 + mathjax 2
-        app.config.mathjax_config = app.config.mathjax_config or {}
-        app.config.mathjax_config.setdefault("tex2jax", {})
+        app.config.mathjax_config = dict(app.config.mathjax_config or {})
+        app.config.mathjax_config["tex2jax"] = dict(
+            app.config.mathjax_config.get("tex2jax") or {}
+        )
         if (
             "processClass" in app.config.mathjax_config["tex2jax"]
             and app.config.mathjax_config["tex2jax"]["processClass"] != mjax_classes
